@@ -26,12 +26,13 @@ def run_C05(ctx):
                                 Classes='{"ListOffset","List","Regular","IndexedOption","ByteMasked"}')
     else:
         consts = session_consts(OpSet='{"tolist","num","flatten","localindex"}')
-    ctx.tlc_phase("structure", "Session", consts, invariants=["Refines", "Closed"],
-                  require_actions=["NumOp", "FlattenOp", "LocalIndexOp", "WrapListOffset", "WrapList"])
+    r1 = ctx.tlc_phase("structure", "Session", consts, invariants=["Refines", "Closed"],
+                       require_actions=["NumOp", "FlattenOp", "LocalIndexOp", "WrapListOffset", "WrapList"])
     # the same laws through ak.num / ak.flatten / ak.local_index of the repository's Python layer (L2)
     consts = session_consts(OpSet='{"num","flatten","localindex"}', LeafSet=leafset(2), Classes='{"ListOffset","List","Regular","IndexedOption","ByteMasked"}')
     ctx.l2_phase("structure-python-layer", "Session", consts, ("l2replay", "h_generic"), invariants=["Closed"],
-                 require_actions=["NumOp", "FlattenOp", "LocalIndexOp"], sample_cases=(12000 if ctx.quick() else 200000), timeout=900)
+                 require_actions=["NumOp", "FlattenOp", "LocalIndexOp"], sample_cases=(12000 if ctx.quick() else 200000), timeout=900,
+                 reuse=(r1 if ctx.quick() else None))
     ctx.chain_phase("chains-code-to-spec", (4000 if ctx.quick() else 60000), 5, ops={"num", "localindex", "flatten"})
     ctx.pychain_phase("python-chains-code-to-spec", (4000 if ctx.quick() else 60000), 5, ops={"num", "localindex", "flatten", "unflatten"})
     return ctx.finish(assumptions=["leaf values are the positions 1..n (distinct), so any misplaced element is visible"])
@@ -114,11 +115,12 @@ def run_C09(ctx):
     consts = session_consts(OpSet='{"tolist","pad","isnone"}', LeafSet=leafset(2 if ctx.quick() else 3), Classes=OPTION_CLASSES,
                             Axes="{-3,-2,-1,0,1,2,3}" if not ctx.quick() else "{-2,-1,0,1,2}",
                             Targets="{0,1,2,3}" if not ctx.quick() else "{0,1,3}")
-    ctx.tlc_phase("pad-all-encodings", "Session", consts, invariants=["Refines", "Closed"],
-                  require_actions=["PadOp", "IsNoneOp", "WrapByteMasked", "WrapBitMasked", "WrapIndexedOption", "WrapUnmasked"])
+    r1 = ctx.tlc_phase("pad-all-encodings", "Session", consts, invariants=["Refines", "Closed"],
+                       require_actions=["PadOp", "IsNoneOp", "WrapByteMasked", "WrapBitMasked", "WrapIndexedOption", "WrapUnmasked"])
     consts = session_consts(OpSet='{"pad","isnone"}', LeafSet=leafset(2), Classes=OPTION_CLASSES, Axes="{-2,-1,0,1,2}", Targets="{0,1,3}")
     ctx.l2_phase("pad-isnone-python-layer", "Session", consts, ("l2replay", "h_generic"), invariants=["Closed"],
-                 require_actions=["PadOp", "IsNoneOp"], sample_cases=(12000 if ctx.quick() else 200000), timeout=900)
+                 require_actions=["PadOp", "IsNoneOp"], sample_cases=(12000 if ctx.quick() else 200000), timeout=900,
+                 reuse=(r1 if ctx.quick() else None))
     ctx.chain_phase("chains-code-to-spec", (4000 if ctx.quick() else 60000), 5, ops={"pad", "same"})
     ctx.pychain_phase("python-chains-code-to-spec", (4000 if ctx.quick() else 60000), 5, ops={"pad", "fillnone", "isnone", "mask", "singletons", "firsts"})
     return ctx.finish()
@@ -182,13 +184,14 @@ def run_C03(ctx):
                             Classes='{"ListOffset","List","Regular","IndexedOption","ByteMasked","BitMasked","Unmasked","Indexed"}',
                             Axes="{-3,-2,-1,0,1,2}",
                             ReduceArgs="RandomSubset(%d, AllReduceArgs)" % (4 if ctx.quick() else 16))
-    ctx.tlc_phase("reduce", "Session", consts, invariants=["Refines", "Closed"], seed_tlc=True,
-                  require_actions=["ReduceOp", "WrapListOffset", "WrapList", "WrapRegular", "WrapIndexedOption",
-                                   "WrapByteMasked"])
+    r1 = ctx.tlc_phase("reduce", "Session", consts, invariants=["Refines", "Closed"], seed_tlc=True,
+                       require_actions=["ReduceOp", "WrapListOffset", "WrapList", "WrapRegular", "WrapIndexedOption",
+                                        "WrapByteMasked"])
     consts = session_consts(OpSet='{"reduce"}', LeafSet=REDUCE_LEAVES, Classes='{"ListOffset","List","Regular","IndexedOption","ByteMasked"}',
                             Axes="{-2,-1,0,1}", ReduceArgs="RandomSubset(4, AllReduceArgs)")
     ctx.l2_phase("reduce-python-layer", "Session", consts, ("l2replay", "h_generic"), invariants=["Closed"], seed_tlc=True,
-                 require_actions=["ReduceOp"], sample_cases=(12000 if ctx.quick() else 200000), timeout=900)
+                 require_actions=["ReduceOp"], sample_cases=(12000 if ctx.quick() else 200000), timeout=900,
+                 reuse=(r1 if ctx.quick() else None))
     ctx.chain_phase("chains-code-to-spec", (4000 if ctx.quick() else 60000), 5, ops={"reduce"})
     ctx.pychain_phase("python-chains-code-to-spec", (4000 if ctx.quick() else 60000), 5, ops={"reduce"})
     return ctx.finish(assumptions=["leaf values are small integers incl. ties and zeros; float accuracy is out of scope",
@@ -238,12 +241,13 @@ def run_C06(ctx):
     consts = session_consts(OpSet='{"sort"}', LeafSet=SORT_LEAVES,
                             Classes='{"ListOffset","List","Regular","IndexedOption","ByteMasked","Indexed"}',
                             Axes="{-3,-2,-1,0,1,2}", SortArgs="RandomSubset(%d, AllSortArgs)" % (3 if ctx.quick() else 8))
-    ctx.tlc_phase("sort", "Session", consts, invariants=["Refines", "Closed"], seed_tlc=True,
-                  require_actions=["SortOp", "WrapListOffset", "WrapList", "WrapRegular", "WrapIndexedOption"])
+    r1 = ctx.tlc_phase("sort", "Session", consts, invariants=["Refines", "Closed"], seed_tlc=True,
+                       require_actions=["SortOp", "WrapListOffset", "WrapList", "WrapRegular", "WrapIndexedOption"])
     consts = session_consts(OpSet='{"sort"}', LeafSet=SORT_LEAVES, Classes='{"ListOffset","List","Regular","IndexedOption"}',
                             Axes="{-2,-1,0,1}", SortArgs="RandomSubset(3, AllSortArgs)")
     ctx.l2_phase("sort-python-layer", "Session", consts, ("l2replay", "h_generic"), invariants=["Closed"], seed_tlc=True,
-                 require_actions=["SortOp"], sample_cases=(12000 if ctx.quick() else 200000), timeout=900)
+                 require_actions=["SortOp"], sample_cases=(12000 if ctx.quick() else 200000), timeout=900,
+                 reuse=(r1 if ctx.quick() else None))
     ctx.chain_phase("chains-code-to-spec", (4000 if ctx.quick() else 60000), 5, ops={"sort", "argsort"})
     ctx.pychain_phase("python-chains-code-to-spec", (4000 if ctx.quick() else 60000), 5, ops={"sort", "argsort"})
     return ctx.finish(assumptions=["float leaves hold small integers and NaN only; strings are not modelled yet",
@@ -529,8 +533,8 @@ def run_C02(ctx):
     q = ctx.quick()
     pairs = 0
     consts = session_consts(OpSet='{"slice","num","flatten","localindex","pad","comb","samevalue"}',
-                            LeafSet=leafset(2 if q else 3), Classes=ALL_CLASSES, Axes="{-2,-1,0,1,2}", Targets="{0,2}", CombNs="{2}",
-                            SliceTuples="RandomSubset(%d, %s)" % (4 if q else 16, slice_tuples(0)))
+                            LeafSet=leafset(2 if q else 3), Classes=ALL_CLASSES, Axes="{-1,0,1}" if q else "{-2,-1,0,1,2}", Targets="{0,2}",
+                            CombNs="{2}", SliceTuples="RandomSubset(%d, %s)" % (3 if q else 16, slice_tuples(0)))
     r = ctx.tlc_phase("structure-ops-all-encodings", "Session", consts, invariants=["Closed"], seed_tlc=False,
                       judge_fn=("replay", "judge_none"), record=("replay", "record_c02"),
                       require_actions=["SliceOp", "PadOp", "FlattenOp", "WrapByteMasked", "WrapBitMasked", "WrapIndexed"])
@@ -538,7 +542,7 @@ def run_C02(ctx):
     consts = session_consts(OpSet='{"reduce","sort"}', LeafSet=REDUCE_LEAVES,
                             Classes='{"ListOffset","List","IndexedOption","ByteMasked","BitMasked","Indexed"}' if q else ALL_CLASSES,
                             Axes="{-2,-1,0}" if q else "{-3,-2,-1,0,1,2}",
-                            ReduceArgs="{[r |-> rr, mask |-> 0, kd |-> 0] : rr \\in {\"sum\", \"argmin\", \"argmax\", \"max\", \"count\"}}"
+                            ReduceArgs="{[r |-> rr, mask |-> 0, kd |-> 0] : rr \\in {\"sum\", \"argmax\", \"count\"}}"
                             if q else "AllReduceArgs",
                             SortArgs="{[asc |-> 1, stable |-> 1, arg |-> 0], [asc |-> 0, stable |-> 1, arg |-> 1]}")
     r = ctx.tlc_phase("reduce-sort-all-encodings", "Session", consts, invariants=["Closed"], seed_tlc=False,
@@ -548,7 +552,7 @@ def run_C02(ctx):
     consts = session_consts(OpSet='{"concat","aux"}', LeafSet=MIXED_LEAVES, MaxDepth="1", Classes=ALL_CLASSES)
     r = ctx.tlc_phase("concat-all-encodings", "Session", consts, invariants=["Closed"],
                       judge_fn=("replay", "judge_none"), record=("replay", "record_c02"), require_actions=["ConcatOp"],
-                      max_cases=700000 if q else None)
+                      max_cases=350000 if q else None)
     pairs += _c02_groups(ctx, r.cases_path, "concat-all-encodings")
     ctx.chain_phase("chains-code-to-spec", (8000 if ctx.quick() else 120000), 6)
     ctx.pychain_phase("python-chains-code-to-spec", (6000 if ctx.quick() else 100000), 6)
